@@ -18,6 +18,10 @@ def gen_case(rng):
     return [[1, kind]] + labels
 
 
+import os, subprocess, time
+import props_race
+
+
 class C20(Spec):
     pid = "C20"
     component = "thread"
@@ -66,3 +70,41 @@ class C20(Spec):
         first1 = ls.index("1") if "1" in ls else len(ls)
         tags.add("thread first runs after %d starter step(s)" % min(3, ls[:first1].count("0")))
         return sorted(tags)
+
+    def extra_impl_checks(self, engine, tier, seed):
+        """the memory-ordering half of "isFinished() becomes true only after the callable has returned": the hand-over program of
+        harness/race.cpp (the owner reads plain data the callable wrote as soon as isFinished() is true) under ThreadSanitizer"""
+        ok, exe, log = props_race.build_tsan("C20")
+        if not ok:
+            raise RuntimeError("the ThreadSanitizer build of harness/race.cpp failed")
+        iters = 1500 if tier == "quick" else 40000
+        seeds = [seed, seed + 1] if tier == "quick" else [seed + k for k in range(4)]
+        env = dict(os.environ)
+        env["TSAN_OPTIONS"] = "halt_on_error=0 exitcode=0 report_signal_unsafe=0 history_size=4"
+        procs = [(sd, subprocess.Popen([exe, "5", str(iters), str(sd)], stdout=subprocess.PIPE, stderr=subprocess.PIPE, text=True,
+                                       errors="replace", env=env)) for sd in seeds]
+        done, reports = 0, 0
+        t0 = time.time()
+        for sd, pr in procs:
+            cmd = f"TSAN_OPTIONS='halt_on_error=0' {exe} 5 {iters} {sd}"
+            try:
+                so, se = pr.communicate(timeout=300 if tier == "quick" else 1500)
+            except subprocess.TimeoutExpired:
+                pr.kill(); so, se = pr.communicate()
+                engine.rep.violation("C20: the hand-over program did not terminate (isFinished() never became true)",
+                                     {"kind": "stress program hung", "cmd": cmd})
+                continue
+            if pr.returncode == 3:
+                engine.rep.violation("C20: isFinished() was true but the data written by the callable was not visible",
+                                     {"kind": "hand-over through isFinished() lost data", "cmd": cmd, "stdout": so[-500:]})
+            elif pr.returncode != 0:
+                engine.rep.violation("C20: the hand-over program crashed", {"kind": "stress program crashed", "cmd": cmd, "stderr_tail": se[-3000:]})
+            else:
+                done += 1
+            for sig, text in props_race.parse_reports(se, anywhere=True):
+                reports += 1
+                engine.rep.violation("C20: isFinished() reported completion without ordering the callable's writes: " + sig,
+                                     {"kind": "ThreadSanitizer data race between the callable's writes and the owner's reads after isFinished()",
+                                      "cmd": cmd, "report": text})
+        return {"evaluations": iters * len(seeds), "handover_runs_completed": done, "handover_tsan_reports": reports,
+                "handover_wall_s": round(time.time() - t0, 1)}
